@@ -10,6 +10,16 @@ struct Window {
     width: Eval,
 }
 
+// Window bounds are computed from scores that may be mate scores, close to the limits of the
+// score type, so they must not overflow before they are clamped.
+fn saturating_add(a: Eval, b: Eval) -> Eval {
+    Eval(a.0.saturating_add(b.0))
+}
+
+fn saturating_sub(a: Eval, b: Eval) -> Eval {
+    Eval(a.0.saturating_sub(b.0))
+}
+
 fn clamp_alpha(eval: Eval) -> Eval {
     std::cmp::max(Eval::MIN, eval)
 }
@@ -30,8 +40,8 @@ impl Window {
 
     pub fn around(eval: Eval, width: Eval) -> Self {
         Self {
-            alpha: clamp_alpha(eval - width),
-            beta: clamp_beta(eval + width),
+            alpha: clamp_alpha(saturating_sub(eval, width)),
+            beta: clamp_beta(saturating_add(eval, width)),
 
             width,
         }
@@ -39,16 +49,16 @@ impl Window {
 
     pub fn widen_down(&mut self) {
         self.increase_window_widening_rate();
-        self.alpha = clamp_alpha(self.alpha - self.width);
+        self.alpha = clamp_alpha(saturating_sub(self.alpha, self.width));
     }
 
     pub fn widen_up(&mut self) {
         self.increase_window_widening_rate();
-        self.beta = clamp_beta(self.beta + self.width);
+        self.beta = clamp_beta(saturating_add(self.beta, self.width));
     }
 
     fn increase_window_widening_rate(&mut self) {
-        self.width = self.width + self.width / 2;
+        self.width = saturating_add(self.width, self.width / 2);
     }
 }
 
